@@ -11,6 +11,7 @@ import (
 	"fmt"
 	"strconv"
 	"strings"
+	"sync"
 )
 
 // Type is a type term of Schema.tla.
@@ -164,12 +165,13 @@ func (e *Entry) SlotNames() []string {
 type Tables struct {
 	Kinds  []Entry `json:"kinds"`
 	CExprs []Entry `json:"cexprs"`
+	once   sync.Once
 	byKey  map[string]*Entry
 }
 
 // Lookup returns the entry of a kind in a category ("inst"/"term" share one namespace, "cexpr" another).
 func (t *Tables) Lookup(cat, kind string) *Entry {
-	if t.byKey == nil {
+	t.once.Do(func() { // Lookup is called from the parallel workers
 		t.byKey = map[string]*Entry{}
 		for i := range t.Kinds {
 			t.byKey["i:"+t.Kinds[i].Kind] = &t.Kinds[i]
@@ -177,7 +179,7 @@ func (t *Tables) Lookup(cat, kind string) *Entry {
 		for i := range t.CExprs {
 			t.byKey["c:"+t.CExprs[i].Kind] = &t.CExprs[i]
 		}
-	}
+	})
 	if cat == "cexpr" {
 		return t.byKey["c:"+kind]
 	}
